@@ -46,6 +46,32 @@ type Workload struct {
 	tmplN    int // number of history programs already run on the template
 	scripts  map[string]*otto.Script
 	progs    map[string]any
+	// the template's own history, its outcome and the family's observation program (TemplateUnit)
+	tmplProg, tmplQ []c01.N
+	tmplSrc         string
+	tmplObs         c01.Obs
+}
+
+// TemplateUnit observes the TEMPLATE after all its copies have run their mutations: it must answer
+// the observation program like a runtime that only ran the history (nothing a copy did is visible).
+func (w *Workload) TemplateUnit() *Unit {
+	u := &Unit{ID: len(w.Units) + 1, Kind: "template-after-copies"}
+	u.Progs = [][]c01.N{w.tmplProg, w.tmplQ}
+	u.srcs = []string{w.tmplSrc, c01.RenderProgram(w.tmplQ)}
+	u.Obs = []c01.Obs{w.tmplObs}
+	var log [][]any
+	logs.Store(w.template, &log)
+	defer logs.Delete(w.template)
+	func() {
+		defer func() {
+			if p := recover(); p != nil {
+				u.Obs = append(u.Obs, c01.Obs{Log: [][]any{}, Thr: []int{71, 79, 32, 80, 65, 78, 73, 67}, V: map[string]any{"t": "undef"}}) // "GO PANIC"
+			}
+		}()
+		v, e := w.template.Run(u.srcs[1])
+		u.Obs = append(u.Obs, c01.MakeObs(log, v, e))
+	}()
+	return u
 }
 
 // BuildWorkload generates n units.  Unit kinds rotate; units of kind
@@ -66,7 +92,8 @@ func BuildWorkload(seed int64, n int, reuse int) *Workload {
 	}
 	// the template of the copy units has a history that builds shared-looking structure
 	// (bound functions with object arguments, closures, accessors, arguments objects ...)
-	h, _, _ := scen.Scenario(rng)
+	fam := int(uint64(seed) % uint64(scen.Families)) // consecutive seeds walk through all families
+	h, _, tq := scen.ScenarioOf(fam, rng)
 	tmplProg := h
 	tmplSrc := c01.RenderProgram(tmplProg)
 	w.template = otto.New()
@@ -77,6 +104,7 @@ func BuildWorkload(seed int64, n int, reuse int) *Workload {
 	tmplObs := c01.MakeObs(tlog, tv, terr)
 	logs.Delete(w.template)
 	w.tmplN = 1
+	w.tmplProg, w.tmplQ, w.tmplSrc, w.tmplObs = tmplProg, tq, tmplSrc, tmplObs
 	kinds := []string{"fresh", "copy", "shared-script", "shared-program"}
 	for i := 0; i < n; i++ {
 		u := &Unit{ID: i + 1, Kind: kinds[i%len(kinds)]}
@@ -87,10 +115,16 @@ func BuildWorkload(seed int64, n int, reuse int) *Workload {
 		switch u.Kind {
 		case "copy":
 			// history (already run on the template) + a mutation and an observation of the same family
-			_, m, q := scen.Scenario(rand.New(rand.NewSource(seed))) // same family as the template's history
-			_, m2, _ := scen.Scenario(rand.New(rand.NewSource(seed)))
+			// every copy makes its OWN selection of the family's mutations (some make none), so that an
+			// effect leaking from one copy into another, or into the template, shows in the observation
+			_, m, _ := scen.ScenarioOf(fam, rand.New(rand.NewSource(seed+int64(i))))
+			q := tq
 			if i%8 >= 4 {
+				_, m2, _ := scen.ScenarioOf(fam, rand.New(rand.NewSource(seed+1000+int64(i))))
 				m = append(m, m2...)
+			}
+			if i%16 == 5 {
+				m = []c01.N{c01.Empty()}
 			}
 			u.Progs = [][]c01.N{tmplProg, m, q}
 			u.srcs = []string{tmplSrc, c01.RenderProgram(m), c01.RenderProgram(q)}
